@@ -27,8 +27,8 @@ func init() {
 			"18-decimal rounding inside an exponential period may move a floor only when the exact value is within 1e-6 of an integer (counted as ambiguous, either neighbour accepted)",
 			"generator keeps periods/steps >= 1s, multiplier in [0,1], <= ~3000 steps per bounded period",
 		},
-		Cases:         func(t string) int { return tierN(t, 160, 12000) },
-		MinNontrivial: func(t string) int { return tierN(t, 15, 800) },
+		Cases:         func(t string) int { return tierN(t, 480, 12000) },
+		MinNontrivial: func(t string) int { return tierN(t, 45, 800) },
 		Run:           runC02,
 	})
 }
